@@ -120,9 +120,12 @@ class DnsRecordDnskey(ParsableBase, Serializable):
         key_parser.parse_mpint('x', key_size)
         key_parser.parse_mpint('y', key_size)
 
-        return PublicKey.from_params(PublicKeyParamsEcdsa(
-            point_x=key_parser['x'], point_y=key_parser['y'], named_group=named_group,
-        ))
+        try:
+            return PublicKey.from_params(PublicKeyParamsEcdsa(
+                point_x=key_parser['x'], point_y=key_parser['y'], named_group=named_group,
+            ))
+        except ValueError as e:  # zero coordinate
+            six.raise_from(InvalidValue((key_parser['x'], key_parser['y']), cls, 'key'), e)
 
     @classmethod
     def _parse_public_key_eddsa(cls, dnssec_algorithm, key_parser):
@@ -160,7 +163,9 @@ class DnsRecordDnskey(ParsableBase, Serializable):
     def parse_key(cls, parsable, dnssec_algorithm):
         key_parser = ParserBinary(parsable)
 
-        public_key_type = dnssec_algorithm.value.algorithm.value.key_type
+        public_key_type = getattr(getattr(dnssec_algorithm.value.algorithm, 'value', None), 'key_type', None)
+        if public_key_type is None:  # indirect, private, Diffie-Hellman, ... keys
+            raise InvalidValue(dnssec_algorithm, cls, 'algorithm')
         if public_key_type == Authentication.RSA:
             public_key = cls._parse_public_key_rsa(key_parser)
         elif public_key_type in [Authentication.ECDSA, Authentication.GOST_R3410_01]:
